@@ -16,7 +16,8 @@ def Row.appends (r : Row) : Bool :=
 
 /-- what a row must satisfy in the current left state -/
 def RowPre (P : Params) (X : SParams) (s₁ : St) (r : Row) : Prop :=
-  EdgesPre P X s₁ (dropTrivial r.edges) ∧ (∀ d ∈ r.dests, d ∉ X.F) ∧ P.ρ r.nodeUuid = r.nodeUuid ∧ RV s₁
+  EdgesPre P X s₁ (dropTrivial r.edges) ∧ (∀ d ∈ r.dests, d ∉ X.F) ∧ P.ρ r.nodeUuid = r.nodeUuid ∧ RV s₁ ∧
+  (X.nmAll = true ∨ (r.nodeUuid = [] ∧ r.nodeName = []))
 
 theorem Eff.of_spost {s₁ s₂ t₁ t₂ : St} (h : SPost P X s₁ s₂ ⟨⟩ t₁ ⟨⟩ t₂) : Eff P s₁ t₁ :=
   Eff.of_blkEq h.2.2.2 h.2.1.2.1
@@ -25,7 +26,7 @@ theorem Eff.of_spost {s₁ s₂ t₁ t₂ : St} (h : SPost P X s₁ s₂ ⟨⟩ 
 theorem parseRow_rel (ok : P.Ok) {s₁ s₂ : St} (h : Sim P X s₁ s₂) (r0 : Row) (hpre : RowPre P X s₁ r0) :
     rwp (parseRow r0) (parseRow r0) s₁ s₂ (fun _ t₁ _ t₂ =>
       Sim P X t₁ t₂ ∧ t₁.stack = s₁.stack ∧ Eff P s₁ t₁ ∧ (r0.appends = true → MR P t₁)) := by
-  obtain ⟨hed, hds, hgiv, hrv⟩ := hpre
+  obtain ⟨hed, hds, hgiv, hrv, hnmk⟩ := hpre
   unfold parseRow
   simp only []
   refine rwp_ite (fun hx => ?_) fun h1 => ?_
@@ -55,7 +56,7 @@ theorem parseRow_rel (ok : P.Ok) {s₁ s₂ : St} (h : Sim P X s₁ s₂) (r0 : 
     intro _ t₁ _ t₂ ⟨ht, e, hm, hf⟩
     exact ⟨ht, e, hf, fun _ => hm⟩
   refine rwp_ite (fun hx => rwp_fail_left _ _ _ _ _) fun h4 => ?_
-  refine rwp_mono (actionRow_rel ok h { r0 with edges := dropTrivial r0.edges } hgiv hed) ?_
+  refine rwp_mono (actionRow_rel ok h { r0 with edges := dropTrivial r0.edges } hgiv hed hnmk) ?_
   intro _ t₁ _ t₂ ⟨ht, e, hf, hm⟩
   refine ⟨ht, e, hf, ?_⟩
   intro ha
@@ -142,6 +143,7 @@ theorem SSim.push {s₁ s₂ : St} (h : SSim P X s₁ s₂) (nb : Nat) (hd : P.D
   · rw [e2]; exact h.riDG
   · rw [e2]; exact h.rl
   · rw [e2]; exact h.rk
+  · rw [e2, f2]; exact h.rk2
   · rw [e3, f3]; exact h.nm
   · rw [e3]; exact h.nmDN
 
@@ -251,6 +253,7 @@ theorem SSim.pop {s₁ s₂ : St} (h : SSim P X s₁ s₂) {b c : Nat} {rest : L
   · rw [e2]; exact h.riDG
   · rw [e2]; exact h.rl
   · rw [e2]; exact h.rk
+  · rw [e2, f2]; exact h.rk2
   · rw [e3, f3]; exact h.nm
   · rw [e3]; exact h.nmDN
 
